@@ -22,6 +22,9 @@ TRACE = "VapiRouterTrace"
 TCFG = "VapiRouterTrace.cfg"
 STRICT = "VapiRouterTrace_strict.cfg"
 FINDING = "GROW-VAPIROUTER-client-fault-500"
+FINDING2 = "GROW-VAPIROUTER-upstream-status-500"
+# trace configuration by (client faults as coded?, upstream status as coded?)
+CFGS = {(True, True): TCFG, (False, False): STRICT, (False, True): "VapiRouterTrace_fixM.cfg", (True, False): "VapiRouterTrace_fixA.cfg"}
 
 RULE = ("VapiRouter family: cases = every entry of NewRouter's table (every method, every fork, JSON and SSZ bodies) and paths outside "
         "it, valid or with ONE alteration -- method; path shape (trailing slash, extra segments, other letter case / version / prefix, "
@@ -40,6 +43,9 @@ ASSUMPTIONS = [
     "proposal / blinded proposal and a malformed validator id are answered 500 'Internal server error' instead of 4xx (the handler "
     "functions replace unmarshal's apiError by errors.New / never make one); modelled by the constant Malformed = \"ascoded\"; three "
     "dedicated schedules are validated against the strict configuration and must be rejected exactly there",
+    "known finding " + FINDING2 + ": an error of a Handler method / of Handler.Proxy that carries an API status code (eth2api.Error - what "
+    "go-eth2-client returns when the beacon node answered 4xx / 5xx, also for every proxied request) is answered 500 'Internal server "
+    "error' (writeError knows only its own apiError); constant ApiErr = \"ascoded\"; two dedicated schedules as above",
     "as coded and stated in the spec: wrong method / trailing slash / unknown sub-path of an intercepted path are proxied; a path that "
     "needs cleaning is redirected (301); %2F matches like a slash; builder_boost_factor of the request is ignored; the Accept header has "
     "no effect (always JSON); duplicated parameters: uint takes the first, fixed hex counts as missing, graffiti as absent; graffiti is "
@@ -441,7 +447,8 @@ CONTROLS = (("VapiRouterMC_ctl_anymethod.cfg", "Exclusive", "the method matcher 
             ("VapiRouterMC_ctl_bbfquery.cfg", "ArgFidelity", "the builder boost factor is taken from the request"),
             ("VapiRouterMC_ctl_blindedflip.cfg", "RespFidelity", "the blinded flag of the proposal response is inverted"),
             ("VapiRouterMC_ctl_bgctx.cfg", "CtxPropagates", "the Handler is called with a context that does not end when the client goes away"),
-            ("VapiRouterMC_ctl_clientfault500.cfg", "ClientFault4xx", "AS CODED: client faults answered 500 (the known finding)"))
+            ("VapiRouterMC_ctl_clientfault500.cfg", "ClientFault4xx", "AS CODED: client faults answered 500 (known finding)"),
+            ("VapiRouterMC_ctl_upstreamstatus500.cfg", "UpstreamStatusKept", "AS CODED: a Handler error carrying an API status answered 500 (known finding)"))
 WORKERS = int(os.environ.get("VERIF_TLC_WORKERS", "0")) or None
 
 
@@ -484,6 +491,15 @@ def finding_cases(cases):
     return pick
 
 
+def finding2_cases(cases):
+    """two cases of the second known finding: Handler.Proxy / a Handler method fails with the beacon node's 404"""
+    pick = []
+    for want in (lambda c: c["ep"] == "other" and c["method"] == "GET" and c["ctype"] == "none" and c["ans"]["kind"] == "apierr" and c["ans"]["status"] == 404,
+                 lambda c: c["ep"] == "attestation_data" and c["ans"]["kind"] == "apierr" and c["ans"]["status"] == 404):
+        pick += [c for c in cases if want(c)][:1]
+    return pick
+
+
 def stage(o, tier, seed):
     t0 = time.time()
     thorough = tier == "thorough"
@@ -502,18 +518,21 @@ def stage(o, tier, seed):
         keep = slow[:16]
     sch = [x for x in sch if x[0]["ans"]["kind"] != "timeout"] + keep
     o.extra["vapirouter_cases_enumerated_by_tlc"] = len(cases)
-    # The known finding first: its three schedules are validated against the STRICT configuration (client faults are 4xx).  On the
-    # pinned tree they are rejected there and accepted as coded -> KNOWN-FINDING, and the batch is validated as coded; on a tree
-    # that carries the fix they are accepted -> the batch is validated against the strict configuration.
-    fs = [concretise(r, c) for c in finding_cases(cases)]
-    if len(fs) != 3:
-        raise vlib.Infra("the schedules of the known finding were not found among the cases")
+    # The known findings first: their schedules are validated against the STRICT configuration (client faults are 4xx, a status the
+    # Handler's error carries is kept).  On the pinned tree they are rejected there and accepted by the configuration that has
+    # exactly that deviation as coded -> KNOWN-FINDING, and the batch is validated with the deviations that showed; on a tree that
+    # carries a fix its schedules are accepted and the batch is validated strictly in that respect.
+    fs = [concretise(r, c) for c in finding_cases(cases) + finding2_cases(cases)]
+    if len(fs) != 5:
+        raise vlib.Infra("the schedules of the known findings were not found among the cases")
     nk = len(o.known)
-    vlib.conformance(o, FAMILY, TRACE, STRICT, PKG, fs, tag="vr_strict", dev_cfgs=[(FINDING, TCFG)])
-    cfg = TCFG
-    if len(o.known) == nk and not o.violations:
-        cfg = STRICT
-        o.notes.append("the known finding %s does not show on this tree: validated with Malformed = strict" % FINDING)
+    vlib.conformance(o, FAMILY, TRACE, STRICT, PKG, fs, tag="vr_strict", max_report=5,
+                     dev_cfgs=[(FINDING, CFGS[(True, False)]), (FINDING2, CFGS[(False, True)])])
+    shown = {fid for fid, _ in o.known[nk:]}
+    cfg = CFGS[(FINDING in shown, FINDING2 in shown)]
+    for f in (FINDING, FINDING2):
+        if f not in shown and not o.violations:
+            o.notes.append("the known finding %s does not show on this tree: validated strictly in that respect" % f)
     o.extra["vapirouter_trace_cfg"] = cfg
     tr = []
     if not o.violations:
